@@ -109,6 +109,47 @@ def parse_model(out):
     return model
 
 
+POINTWISE_ONLY = set()     # Int -> Int functions that are not byte buffers: only their values at the queried points are reported
+
+
+def _fill_points(model, point_apps):
+    """model[fname][args] = value for every named application whose arguments can be evaluated under the model"""
+    class _D(dict):
+        def __missing__(self, k):
+            return 0
+    env = _D({k: v for k, v in model.items() if not isinstance(v, dict)})
+    funs = {}
+
+    def mk(name):
+        def f(*args):
+            d = model.get(name, {})
+            key = args[0] if len(args) == 1 else tuple(args)
+            return d.get(key, 0) if isinstance(d, dict) else 0
+        return f
+    pending = list(enumerate(point_apps))
+    for _ in range(4):
+        nxt = []
+        for k, ap in pending:
+            funs.setdefault(ap[2], mk(ap[2]))
+            try:
+                args = [T.evaluate(x, env, funs) for x in ap[3:]]
+            except Exception:
+                nxt.append((k, ap))
+                continue
+            val = model.get(f"app!{k}")
+            if val is None:
+                continue
+            key = args[0] if len(args) == 1 else tuple(args)
+            d = model.setdefault(ap[2], {})
+            if isinstance(d, dict):
+                d[key] = val
+        if not nxt:
+            break
+        pending = nxt
+    for k in range(len(point_apps)):
+        model.pop(f"app!{k}", None)
+
+
 class QueryResult:
     def __init__(self, name, verdict, per_solver, model, text, time_s):
         self.name = name
@@ -125,9 +166,30 @@ def check(name, decls, ufs, asserts, timeout_s=60, want_model_of=None, solvers=(
     gv = tuple(want_model_of) if want_model_of is not None else tuple(n for n in sorted(decls))
     # byte buffers (uninterpreted Int -> Int): ask for their first bytes so that counterexamples can be replayed
     for fn_, (rs, args) in sorted(ufs.items()):
-        if rs == "Int" and tuple(args) == ("Int",):
+        if rs == "Int" and tuple(args) == ("Int",) and fn_ not in POINTWISE_ONLY:
             gv = gv + tuple(f"({fn_} {i})" for i in range(192))
-    text = script(decls, ufs, asserts, gv)
+    # applications of other uninterpreted functions (to symbolic arguments): name each one by a fresh constant so that the
+    # model says what the function returns at the points the query talks about
+    point_apps = []
+    seen_ids = set()
+    for a in asserts:
+        if a is True or a is False:
+            continue
+        for ap in T.app_terms(a, None, seen_ids):
+            rs, args = ufs.get(ap[2], (None, None))
+            if rs is None or (rs == "Int" and tuple(args) == ("Int",) and all(T.is_const(x) for x in ap[3:])):
+                continue
+            if ap not in point_apps:
+                point_apps.append(ap)
+    point_apps = point_apps[:400]
+    decls2 = dict(decls)
+    asserts2 = list(asserts)
+    for k, ap in enumerate(point_apps):
+        nm = f"app!{k}"
+        decls2[nm] = ap[1]
+        asserts2.append(T.eq(T.var(nm, ap[1]), ap) if ap[1] == "Int" else T.iff(T.var(nm, ap[1]), ap))
+        gv = gv + (nm,)
+    text = script(decls2, ufs, asserts2, gv)
     res, wall = run_solvers(text, timeout_s, solvers)
     per = {}
     model = None
@@ -136,6 +198,7 @@ def check(name, decls, ufs, asserts, timeout_s=60, want_model_of=None, solvers=(
         per[s] = (v, round(dt, 3))
         if v == "sat" and model is None:
             model = parse_model(out)
+            _fill_points(model, point_apps)
     verdicts = {v for v, _ in per.values()}
     if "error" in verdicts:
         verdict = "inconclusive"
